@@ -46,8 +46,13 @@ OrderEv == /\ Is("order")
            /\ Mark(All(<<Check("order.measured", ~Ev.bad /\ Len(Ev.slopes) >= 2),
                          Check("order.slope_in_band", \A k \in 1..Len(Ev.slopes) : Ev.slopes[k] >= 1000 * Order(Ev.adv) - 300 /\ Ev.slopes[k] <= 1000 * Order(Ev.adv) + 500)>>))
            /\ UNCHANGED tid
+\* the same through the real ROMS forcing (float32 fields: only refinements above the storage noise are passed; lower band p - 1)
+Order32 == /\ Is("order32")
+           /\ Mark(All(<<Check("order.measured", ~Ev.bad /\ Len(Ev.slopes) >= 1),
+                         Check("order.slope_in_band", \A k \in 1..Len(Ev.slopes) : Ev.slopes[k] >= 1000 * Order(Ev.adv) - 1000 + 250 /\ Ev.slopes[k] <= 1000 * Order(Ev.adv) + 1000)>>))
+           /\ UNCHANGED tid
 Crash == Is("crash") /\ Mark(Check("run.crashed", FALSE)) /\ UNCHANGED tid
-Next == Setup \/ Eof \/ Helper \/ OrderEv \/ Crash
+Next == Setup \/ Eof \/ Helper \/ OrderEv \/ Order32 \/ Crash
 Spec == Init /\ [][Next]_vars
 Accepted == TLCGet("stats").diameter - 1 = Len(Tr)
 =============================================================================
